@@ -308,10 +308,10 @@ def parse_intel(text, addr=None, length=None, opsize16=False, source='od'):
         mn, ops = 'int', [('imm', 3)]
     # objdump's pseudo-ops for an immediate predicate / selector: the same instruction with the immediate spelled out
     m = _CMPALIAS.match(mn)
-    if m and source == 'od' and len(ops) == 2:
+    if m and len(ops) == 2:
         mn, ops = 'cmp' + m.group(2), ops + [('imm', _CMPPRED.index(m.group(1)))]
     m = _CLMULALIAS.match(mn)
-    if m and source == 'od' and len(ops) == 2:
+    if m and len(ops) == 2:
         mn, ops = 'pclmulqdq', ops + [('imm', {'lql': 0x00, 'hql': 0x01, 'lqh': 0x10, 'hqh': 0x11}[m.group(1)])]
     if mn == 'xchg' and len(ops) == 2 and ops[0] == ops[1] and ops[0] in (('reg', 'eax'), ('reg', 'ax')):
         mn, ops = 'nop', []
